@@ -212,6 +212,136 @@ def main():
         return ls, "a bit recorded as set in the word behind the bitmap at the end"
     allok &= experiment("BitmapTrace: write behind the bitmap", blines, leftover, {"NothingBehindBitmap"}, "BitmapTrace", "BitmapTrace.cfg", "bitmap_")
 
+    # ---------------------------------------------------------------- ArenaTrace / HeapTrace (dumps of a C18 history and of an API run)
+    exe = vlib.build_harness("drv_api", "drv_api.c", cfg="rel", shim=True)
+    at = os.path.join(OD, "arena_base_full.ndjson")
+    rc, o = vlib.sh([exe, "--out", at, "--seed", "5", "--c18", "all", "--step", "24", "--segs", "1"], timeout=300,
+                    env={"MIMALLOC_PURGE_DELAY": "10", "MIMALLOC_ARENA_PURGE_MULT": "1", "MIMALLOC_ARENA_RESERVE": "65536"})
+    alines = [l for l in open(at) if l.startswith('{"e":"arenas"')]
+    ab = os.path.join(OD, "arenas_base.ndjson"); open(ab, "w").writelines(alines)
+    st, g = tv(ab, "ArenaTrace", "ArenaTrace.cfg")
+    print("%s  %-46s %s" % ("OK  " if st == "accepted" else "FAIL", "ArenaTrace: recorded dumps (unchanged tree)", st))
+    allok &= (st == "accepted")
+    RESULTS.append({"experiment": "ArenaTrace baseline", "tlc": st, "dumps": len(alines)})
+
+    def forget_global(ls):
+        for i, l in enumerate(ls):
+            ev = json.loads(l)
+            if ev["gset"] and any(a["set"] for a in ev["arenas"]):
+                ev["gset"] = False; ev["grem"] = 0; ls[i] = dump(ev)
+                return ls, "the global expiry recorded as cleared while an arena has an expiry"
+        return None
+    allok &= experiment("ArenaTrace: global expiry forgotten", alines, forget_global, {"Arena.GlobalCoversArenas"}, "ArenaTrace", "ArenaTrace.cfg", "arenas_")
+
+    def purge_in_use(ls):
+        for i, l in enumerate(ls):
+            ev = json.loads(l)
+            for a in ev["arenas"]:
+                if a["purge"] and a["blocks"] >= 1:
+                    a["inuse"] = [[0, a["bits"] - 1]]; ls[i] = dump(ev)
+                    return ls, "a block scheduled for purging recorded as in use"
+        return None
+    allok &= experiment("ArenaTrace: purge of a block in use", alines, purge_in_use, {"Arena.PurgeNotInUse"}, "ArenaTrace", "ArenaTrace.cfg", "arenas_")
+
+    def dirty_cleared(ls):
+        seen = False
+        for i, l in enumerate(ls):
+            ev = json.loads(l)
+            if any(a["dirty"] for a in ev["arenas"]):
+                if seen:
+                    for a in ev["arenas"]:
+                        if a["dirty"] and not a["inuse"][0][0] == 0: a["dirty"] = []
+                    ls[i] = dump(ev)
+                    return ls, "dirty bits of an arena recorded as cleared"
+                seen = True
+        return None
+    allok &= experiment("ArenaTrace: dirty bit cleared", alines, dirty_cleared, {"Arena.DirtyMonotone", "Arena.InUseDirty"}, "ArenaTrace", "ArenaTrace.cfg", "arenas_")
+
+    ht = os.path.join(OD, "heap_base_full.ndjson")
+    rc, o = vlib.sh([exe, "--out", ht, "--seed", "9", "--ops", "1500", "--segs", "1"], timeout=300)
+    hlines = [l for l in open(ht) if l.startswith('{"e":"heap"')]
+    hb = os.path.join(OD, "heaps_base.ndjson"); open(hb, "w").writelines(hlines)
+    st, g = tv(hb, "HeapTrace", "HeapTrace.cfg")
+    print("%s  %-46s %s" % ("OK  " if st == "accepted" else "FAIL", "HeapTrace: recorded dumps (unchanged tree)", st))
+    allok &= (st == "accepted")
+    RESULTS.append({"experiment": "HeapTrace baseline", "tlc": st, "dumps": len(hlines)})
+
+    def wrong_queue(ls):
+        for i, l in enumerate(ls):
+            ev = json.loads(l)
+            for q in ev["queues"][1:-2]:
+                if q["pages"]:
+                    q["pages"][0]["binof"] = q["pages"][0]["binof"] + 1; ls[i] = dump(ev)
+                    return ls, "a page recorded with the bin of the next size class"
+        return None
+    allok &= experiment("HeapTrace: page in the wrong queue", hlines, wrong_queue, {"Heap.PageInRightQueue", "Heap.DirectTable"}, "HeapTrace", "HeapTrace.cfg", "heaps_")
+
+    def lost_block(ls):
+        for i, l in enumerate(ls):
+            ev = json.loads(l)
+            for q in ev["queues"]:
+                for pg in q["pages"]:
+                    if pg["used"] >= 1 and pg["live"] >= 1:
+                        pg["used"] = pg["used"] - 1; ls[i] = dump(ev)
+                        return ls, "a page's used count recorded one lower than the blocks the program holds in it"
+        return None
+    allok &= experiment("HeapTrace: used count below live blocks", hlines, lost_block, {"Heap.LiveAccounted", "Heap.PageCounts"}, "HeapTrace", "HeapTrace.cfg", "heaps_")
+
+    # ---------------------------------------------------------------- AbandonTrace (atomic steps of the abandon / adopt protocol)
+    exe = vlib.build_harness("drv_conc", "drv_conc.c", cfg="rel", shim=True, hooks=True)
+    ct = os.path.join(OD, "abandon_base_full.ndjson")
+    rc, o = vlib.sh([exe, "--out", ct, "--prog", "exit", "--seed", "7", "--runs", "6", "--strategy", "random", "--rate", "3", "--steps", "1"], timeout=300)
+    clines = [l for l in open(ct) if l.startswith('{"e":"astep"') or l.startswith('{"e":"ret"') or l.startswith('{"e":"cfg"') or l.startswith('{"e":"reset"')]
+    cb = os.path.join(OD, "asteps_base.ndjson"); open(cb, "w").writelines(clines)
+    st, g = tv(cb, "AbandonTrace", "AbandonTrace.cfg")
+    print("%s  %-46s %s" % ("OK  " if st == "accepted" else "FAIL", "AbandonTrace: recorded steps (unchanged tree)", st))
+    allok &= (st == "accepted")
+    RESULTS.append({"experiment": "AbandonTrace baseline", "tlc": st, "events": len(clines)})
+
+    def drop_clear(ls):
+        i, ev = first(ls, lambda e: e.get("e") == "astep" and e.get("w") == "ab" and e.get("k") == "and" and e.get("hit"))
+        if i is None: return None
+        del ls[i]
+        return ls, "the winning clear of an abandoned bit removed from the log (adoption without winning the bit)"
+    allok &= experiment("AbandonTrace: adoption without winning", clines, drop_clear, {"AdoptAfterWinning", "BitContinuity", "CountFollowsBit", "CountContinuity", "MarkNotTwice"}, "AbandonTrace", "AbandonTrace.cfg", "asteps_")
+
+    def foreign_owner(ls):
+        i, ev = first(ls, lambda e: e.get("e") == "astep" and e.get("w") == "tid" and e.get("k") == "st" and e.get("n", 0) > 0 and e.get("seg", 0) > 0)
+        if i is None: return None
+        ev["n"] = ev["n"] + 1; ls[i] = dump(ev)
+        return ls, "an owner id recorded that is not the writing thread's own"
+    allok &= experiment("AbandonTrace: somebody else's owner id", clines, foreign_owner, {"AdoptOwnId"}, "AbandonTrace", "AbandonTrace.cfg", "asteps_")
+
+    # ---------------------------------------------------------------- MiPurge: the model finds the three repaired schedule defects
+    for variant, cfgname, what in (("forget_pending", "MiPurge_mc.cfg", "Invariant ModelValid is violated"), ("wrong_compare", "MiPurge_mc.cfg", "Invariant ModelValid is violated"),
+                                   ("no_rotation", "MiPurge_starve.cfg", "Temporal property EventuallyPurged was violated"), ("fixed", "MiPurge_live.cfg", None)):
+        src = open(os.path.join(ROOT, "spec", cfgname)).read()
+        src = re.sub(r'Variant = "\w+"', 'Variant = "%s"' % variant, src)
+        if cfgname == "MiPurge_starve.cfg" and "INVARIANT" in src: pass
+        tmpcfg = os.path.join(ROOT, "spec", "_selftest_%s.cfg" % variant)
+        open(tmpcfg, "w").write(src)
+        try:
+            r = vlib.tlc_run("MiPurge", os.path.basename(tmpcfg), workers=6, timeout=900, xmx="4g")
+        finally:
+            os.remove(tmpcfg)
+        found = (what is not None and what in r["out"]) or (what is None and "No error has been found" in r["out"])
+        print("%s  %-46s %s" % ("OK  " if found else "FAIL", "MiPurge: variant %s (%s)" % (variant, cfgname), what or "no error"))
+        allok &= bool(found)
+        RESULTS.append({"experiment": "MiPurge variant %s" % variant, "config": cfgname, "expected": what or "no error", "as_expected": bool(found)})
+
+    for variant, what in (("no_relook", "Invariant Quiescent is violated"), ("mark_last", "Invariant Quiescent is violated"), ("fixed", None)):
+        src = open(os.path.join(ROOT, "spec", "MiPurgeConc_mc.cfg")).read().replace('Variant = "fixed"', 'Variant = "%s"' % variant)
+        tmpcfg = os.path.join(ROOT, "spec", "_selftest_conc_%s.cfg" % variant)
+        open(tmpcfg, "w").write(src)
+        try:
+            r = vlib.tlc_run("MiPurgeConc", os.path.basename(tmpcfg), workers=6, timeout=900, xmx="4g")
+        finally:
+            os.remove(tmpcfg)
+        found = (what is not None and what in r["out"]) or (what is None and "No error has been found" in r["out"])
+        print("%s  %-46s %s" % ("OK  " if found else "FAIL", "MiPurgeConc: variant %s" % variant, what or "no error"))
+        allok &= bool(found)
+        RESULTS.append({"experiment": "MiPurgeConc variant %s" % variant, "expected": what or "no error", "as_expected": bool(found)})
+
     os.makedirs(os.path.join(ROOT, "selftest"), exist_ok=True)
     json.dump({"all_as_expected": bool(allok), "experiments": RESULTS}, open(os.path.join(ROOT, "selftest", "RESULT.json"), "w"), indent=1)
     print("selftest: %s (%d experiments) -> selftest/RESULT.json" % ("all as expected" if allok else "UNEXPECTED RESULTS", len(RESULTS)))
